@@ -210,6 +210,19 @@ def replay_history(hist):
                 else 'edit-effect/' + op
             return key, 'step %d (%s): live contents %r, specification %r' % (n, op, live, tracks)
         if op in ('iterate', 'length', 'merged_track', 'save', 'play', 'iter_nested'):
+            if op == 'save':
+                # an attempt to save that fails half-way (a delta time that cannot be stored in the
+                # LAST message) and is repaired must leave nothing behind on the object
+                last = [t[-1] for t in mid.tracks if len(t)]
+                if last:
+                    old = last[-1].time
+                    last[-1].time = 0.5
+                    try:
+                        smf.save_bytes(mid)
+                    except Exception:
+                        pass
+                    finally:
+                        last[-1].time = old
             got = observe(mid, op)
             ref = observe(fresh(ftype, tpb, tracks), 'iterate' if op == 'iter_nested' else op)
             if got != ref:
